@@ -519,6 +519,42 @@ pub fn c17_async(args: &Args) -> ! {
     std::process::exit(0)
 }
 
+/// `va c16`: the async layer's part of C16 (`send_datagram_wait` blocks and unblocks in step with the
+/// datagram send buffer): scenario S5 (three tasks contending for a buffer that holds one datagram)
+/// under every schedule with <=k deviations; prints one JSON object for `vq c16` to merge.
+pub fn c16_async(args: &Args) -> ! {
+    explore::quiet_panics();
+    let thorough = args.tier == Tier::Thorough;
+    let cx = Ctx { base: Instant::now(), agg: Mutex::new(Agg::default()) };
+    let dl = deadline(if thorough { 600 } else { 20 });
+    let k = if thorough { 3 } else { 2 };
+    let spec = Spec::new(Scen::S5);
+    let (_, o) = cx.exec(&spec);
+    let t = explore_schedule(&cx, &spec, if thorough { o.points * 2 } else { (o.points * 2).min(300) }, 0, k, dl);
+    // a refused send at every poll_send call as well (back-pressure moves when datagrams leave the buffer)
+    let mut execs = t.executions;
+    let mut capped = t.capped;
+    let mut hashes: std::collections::BTreeSet<u64> = t.hashes.iter().copied().collect();
+    for b in 0..o.send_calls {
+        let mut s = spec.clone();
+        s.send_block = Some(b);
+        let t2 = explore_schedule(&cx, &s, 300, 0, 1, dl);
+        execs += t2.executions;
+        capped |= t2.capped;
+        hashes.extend(t2.hashes.iter().copied());
+    }
+    let a = cx.agg.lock().unwrap();
+    let mut seen = std::collections::BTreeSet::new();
+    let viol: Vec<serde_json::Value> = a
+        .viol
+        .iter()
+        .filter(|v| seen.insert(v.2.clone()))
+        .map(|(_, _, sig, what, replay)| json!({"signature": sig, "what": what, "replay": replay}))
+        .collect();
+    println!("{}", json!({"executions": execs, "distinct": hashes.len(), "capped": capped, "k": k, "choice_points_baseline": o.points, "blocked_waits_baseline": o.sites.iter().filter(|((s, _), p)| s == "w.send_datagram_wait" && **p > 0).count(), "violations": viol}));
+    std::process::exit(0)
+}
+
 /// `va c19`: the quinn endpoint's receive path (`RecvState::poll_socket`) under receive-offload
 /// shaped batches. The in-memory socket coalesces what a GRO-capable kernel would (equal sizes, a
 /// shorter last datagram, same source) into one message with a stride and reports several messages
